@@ -9,6 +9,7 @@ import (
 	"fmt"
 	"strings"
 
+	"github.com/cespare/xxhash/v2"
 	"github.com/klauspost/compress/snappy"
 	"github.com/klauspost/compress/zstd"
 
@@ -444,6 +445,13 @@ func genVEXArchive(rnd *hx.Rand, n int) []byte {
 		tw.Write(pretty.Bytes())
 	}
 	tw.Close()
+	if rnd.Chance(2, 3) {
+		// GNU tar pads the archive to a multiple of its record size (20 blocks):
+		// the end-of-archive marker is then far from the end of the stream
+		for buf.Len()%10240 != 0 {
+			buf.Write(make([]byte, 512))
+		}
+	}
 	return zst(buf.Bytes())
 }
 
@@ -580,4 +588,60 @@ func genVEXCSV(rnd *hx.Rand, names []string, n int, changes bool) []byte {
 		}
 	}
 	return []byte(b.String())
+}
+
+// ---- wrappers that store instead of compressing ----
+//
+// With stored deflate blocks / raw zstd blocks every byte of the plaintext
+// sits verbatim in the stream: a flipped content byte leaves the stream
+// decodable and (often) the document well-formed, so that only the trailing
+// checksum can tell — exactly the reads the fetchers must not skip.
+
+func gzStored(b []byte) []byte {
+	var buf bytes.Buffer
+	w, _ := gzip.NewWriterLevel(&buf, gzip.NoCompression)
+	w.Write(b)
+	w.Close()
+	return buf.Bytes()
+}
+
+// zstRaw is a zstd frame of raw blocks with a content checksum.
+func zstRaw(b []byte) []byte {
+	out := []byte{0x28, 0xB5, 0x2F, 0xFD, 0x04, 0x50} // magic, descriptor (checksum), window 1 MiB
+	const max = 1 << 16
+	if len(b) == 0 {
+		out = append(out, 0x01, 0x00, 0x00) // last, raw, size 0
+	}
+	for off := 0; off < len(b); off += max {
+		end := off + max
+		last := uint32(0)
+		if end >= len(b) {
+			end, last = len(b), 1
+		}
+		h := uint32(end-off)<<3 | last
+		out = append(out, byte(h), byte(h>>8), byte(h>>16))
+		out = append(out, b[off:end]...)
+	}
+	sum := xxhash.Sum64(b)
+	return append(out, byte(sum), byte(sum>>8), byte(sum>>16), byte(sum>>24))
+}
+
+// genVEXArchiveRaw: the archive of genVEXArchive, padded like GNU tar, in a
+// zstd frame of raw blocks.
+func genVEXArchiveRaw(rnd *hx.Rand, n int) []byte {
+	var buf bytes.Buffer
+	tw := tar.NewWriter(&buf)
+	for i := 0; i < n; i++ {
+		line := genVEXLine(rnd, i)
+		var pretty bytes.Buffer
+		json.Indent(&pretty, line, "", " ")
+		name := fmt.Sprintf("2024/cve-2024-%05d.json", 10000+i)
+		tw.WriteHeader(&tar.Header{Name: name, Mode: 0o644, Size: int64(pretty.Len()), Typeflag: tar.TypeReg})
+		tw.Write(pretty.Bytes())
+	}
+	tw.Close()
+	for buf.Len()%10240 != 0 {
+		buf.Write(make([]byte, 512))
+	}
+	return zstRaw(buf.Bytes())
 }
